@@ -353,6 +353,7 @@ def _scipy(rng, shape):
 
 
 REDUCTIONS = ("sum", "prod", "max", "min", "any", "all")
+DOCUMENTED_KW_RENAMES = {"correction": "ddof"}
 
 
 def templates(label, sps, nptab, rng, fmt, tier):
@@ -373,6 +374,8 @@ def templates(label, sps, nptab, rng, fmt, tier):
                 V.append(([x], {"axis": ("py", 0), "dtype": ("dtype", "float64")}, "dtype"))
             if label in ("var", "std"):
                 V.append(([x], {"correction": ("py", 1)}, "correction"))
+                V.append(([x], {"correction": ("py", 0.5)}, "correction_fractional"))
+                V.append(([x], {"axis": ("py", 1), "correction": ("py", 1.5)}, "correction_fractional_axis"))
                 V.append(([x], {"axis": ("py", 0), "correction": ("py", 1), "keepdims": ("py", True)}, "correction_axis"))
         x3 = _sp(rng, fmt, (2, 2, 3), 0)
         V.append(([x3], {"axis": ("tuple", [0, 2])}, "axis_tuple"))
@@ -499,7 +502,9 @@ def applicable(sp, args, kwargs, wrapper_of):
         if not args or args[0][0] != "sp":
             return None
         w = wrapper_of.get(sp[1])
-        kw = dict(kwargs)
+        # when the namespace function is (no longer) a thin wrapper the documented Array-API renames of
+        # Model/Dispatch.v (documented_renames) still say how the method spells the keyword
+        kw = {DOCUMENTED_KW_RENAMES.get(kk, kk): v for kk, v in kwargs.items()}
         if w is not None:
             # a keyword the wrapper accepts but does not forward is given to the method under its own name
             kw = {(rename_key(w, kk) or (kk if kk == "out" else None)): v for kk, v in kwargs.items()}
@@ -559,7 +564,7 @@ def cspell(sp):
 IMPORTS = "From Coq Require Import String.\nFrom Verif Require Import Dispatch S_dispatch C17Judge.\nOpen Scope string_scope."
 
 AGREE_CLAUSE = {1: (None, "value"), 2: ("two_algorithm_paths_disagree", "value"),
-                3: ("dok_abstract_stub_returns_none", "value"), 4: ("namespace_function_coerces_to_coo", "value"),
+                3: ("abstract_stub_returns_none", "value"), 4: ("namespace_function_coerces_to_coo", "value"),
                 5: ("unsupported_op_exception_class_differs", "value"), 6: ("spellings_reach_different_code", "value"),
                 7: (None, "representation"), 8: ("result_not_sparse_in_some_spelling", "value"),
                 9: (None, "representation"), 10: ("method_missing_on_format", "value"),
